@@ -454,7 +454,7 @@ def extract_schema(rep: Report) -> str:
     by_cls: dict[str, dict] = {}
     for n in nodes:
         cls = type(n).__name__
-        d = by_cls.setdefault(cls, {"slots": {}, "compared": None, "linked": {}, "walked": {}, "override": "parent" in type(n).__dict__})
+        d = by_cls.setdefault(cls, {"slots": {}, "compared": None, "linked": {}, "walked": {}, "replaced": {}, "override": "parent" in type(n).__dict__})
         compared = sorted(i for i in n._ASTNode__dir() if not callable(getattr(n, i)))
         if d["compared"] is None:
             d["compared"] = compared
@@ -477,6 +477,21 @@ def extract_schema(rep: Report) -> str:
                 d["linked"][k] = d["linked"].get(k, True) and linked
                 counts = [seen.count(id(c)) for c in cs]
                 d["walked"][k] = d["walked"].get(k, True) and all(c == 1 for c in counts)
+                # replace_child: every child of the slot, one at a time, must be substituted at its position and nothing else may change
+                ok_rep = True
+                for c in cs:
+                    before = [(kk, [id(x) for x in cc]) for kk, _, cc in kids(n)]
+                    sentinel = tumfl.AST.Name(c.token, "sentinel__")
+                    try:
+                        n.replace_child(c, sentinel)
+                        after = [(kk, [id(x) for x in cc]) for kk, _, cc in kids(n)]
+                        want = [(kk, [id(sentinel) if i == id(c) else i for i in ids]) for kk, ids in before]
+                        ok_rep = ok_rep and after == want
+                        n.replace_child(sentinel, c)
+                        ok_rep = ok_rep and [(kk, [id(x) for x in cc]) for kk, _, cc in kids(n)] == before
+                    except Exception:  # noqa: BLE001
+                        ok_rep = False
+                d["replaced"][k] = d["replaced"].get(k, True) and ok_rep
         extra = [i for i in seen if i not in {id(c) for _, _, cs in kids(n) for c in cs}]
         if extra:
             rep.problem("Schema", f"NoneWalker.visit_{cls} visits something that is not a child")
@@ -511,12 +526,14 @@ def extract_schema(rep: Report) -> str:
         linked = ", ".join(lstr(k) for k, v in sorted(d["linked"].items()) if v)
         walked = ", ".join(lstr(k) for k, v in sorted(d["walked"].items()) if v)
         exercised = ", ".join(lstr(k) for k in sorted(d["linked"]))
-        rows.append(f"  {{ cls := {lstr(cls)}, slots := [{slots}], compared := [{compared}], linked := [{linked}], walked := [{walked}], exercised := [{exercised}] }}")
+        replaced = ", ".join(lstr(k) for k, v in sorted(d["replaced"].items()) if v)
+        rows.append(f"  {{ cls := {lstr(cls)}, slots := [{slots}], compared := [{compared}], linked := [{linked}], walked := [{walked}], exercised := [{exercised}], replaced := [{replaced}] }}")
     rep.info["schema"] = {"classes": len(by_cls), "nodes": len(nodes)}
     return """/-! GENERATED by harness/extract.py from /repo by introspection of a sample AST covering every node class - do not edit.
 For each class: the structural slots found by reflection (`vars`), the attributes `ASTNode.__dir` yields that are not callable (what `__eq__`
 compares and `parent()` scans), the child slots whose children carry a correct parent link after `parse`, the child slots whose children
-`NoneWalker.visit_<class>` visits exactly once, and the child slots that held at least one child in the sample. -/
+`NoneWalker.visit_<class>` visits exactly once, the child slots that held at least one child in the sample, and the child slots in which
+`replace_child(child, new)` substituted exactly that child (at its position, nothing else changed, and back again) for every child tried. -/
 namespace Tumfl.Gen
 
 structure ClassSchema where
@@ -526,6 +543,7 @@ structure ClassSchema where
   linked : List String
   walked : List String
   exercised : List String
+  replaced : List String
 
 def schema : List ClassSchema := [
 """ + ",\n".join(rows) + """
